@@ -177,11 +177,11 @@ def explore_shards(prop, cfg, tier, drv, seed=1, runner=None, nsplit=16):
             start = start.replace(":S:", ":%d:" % (seed % 100000))
             cmd = [drv, "--explore", str(cap), str(u), str(EXPLORE_MAXSTATES), str(depth), start] + list(sc[4:5])
         r = subprocess.run(cmd, stdout=subprocess.PIPE, stderr=subprocess.PIPE, timeout=1800)
-        m = re.search(r"EXPLORE cap=(\d+) keys=(\d+) states=(\d+) transitions=(\d+) longest_path=(\d+) closed=(\w+)", r.stderr.decode())
+        m = re.search(r"EXPLORE cap=(\d+) keys=(\d+) states=(\d+) transitions=(\d+) longest_path=(\d+) closed=(\w+) structural=(\d+)", r.stderr.decode())
         if r.returncode != 0 or not m:
             raise RuntimeError("model driver --explore %d %d failed: %s" % (cap, u, r.stderr.decode()[-300:]))
         info.append(dict(capacity=int(m.group(1)), keys=int(m.group(2)), states=int(m.group(3)), transitions=int(m.group(4)),
-                         longest_path=int(m.group(5)), closed=(m.group(6) == "true"), depth=depth, start=start))
+                         longest_path=int(m.group(5)), closed=(m.group(6) == "true"), structural_transitions=int(m.group(7)), depth=depth, start=start))
         for blk in r.stdout.decode().split("\nH ")[0:]:
             if not blk:
                 continue
@@ -376,11 +376,12 @@ def verdict(prop, cfg, tier, seed, pr, results, runner, drv, t0, vp):
             miri_sample_op_lines=pr.get("miri_ops", 0),
             unproved=pr["failed"], coqchk=pr.get("coqchk", "not run in the quick tier"),
             evaluations=n_hist, traces_validated_against_impl=n_hist, observations_compared=n_obs,
-            distinct_nontrivial=nontriv,
+            distinct_nontrivial=nontriv + sum(x.get("structural_transitions", 0) for x in pr.get("small_scope", [])),
             rule=("histories generated by tools/gen.py (seeded); compared line by line at levels %s against the model; "
-                  "non-trivial = distinct histories in which the number of allocated leaves both grew and shrank (split and merge happened)"
+                  "non-trivial = distinct histories in which the number of allocated leaves both grew and shrank (split and merge happened), plus, "
+                  "for the small-scope exploration, the (state, operation) pairs - distinct by construction - whose operation changes the number of nodes (a split, a merge or a root change)"
                   if cfg["target"] != "arena" else
-                  "arena histories generated by tools/gen.py (seeded); compared at levels %s; non-trivial = distinct histories with a released slot that was later reused") % levels,
+                  "arena histories generated by tools/gen.py (seeded); compared at levels %s; non-trivial = distinct histories with a released slot that was later reused, plus the explored (state, allocate) pairs that reuse a released slot") % levels,
             op_histogram=histo, divergent_histories=len(divs), oracle_violations=len(viols),
             small_scope_exhaustive=pr.get("small_scope", []),
             small_scope_rule=("for each (capacity, keys) entry the extracted model enumerated every logical tree reachable from new(capacity) by "
